@@ -232,7 +232,7 @@ REGISTRY["C04"] = dict(
     claim=(
         "CSS-tree cursor discipline, a necessary condition of correct re-parenting/bubbling: (a) parent, style_rule_ignoring_at_root, media_queries(+sources), declaration_name and the at-root/keyframes/unknown-at-rule flags "
         "(19 instances) are restored on every non-Err exit; (b) parent_to_child/child_to_parent are mutated only, and together, by CssTree::add_child/link_child_to_parent; (c) add_child copies the parent exactly under "
-        "has_following_sibling, and visit_media_rule/visit_supports_rule/visit_unknown_at_rule all re-create the style rule exactly under style_rule_exists(). NOT decided: the flattening semantics itself."
+        "has_following_sibling, and visit_media_rule/visit_supports_rule/visit_unknown_at_rule all re-create the style rule exactly under style_rule_exists(); (d) visit_at_root_rule evaluates the body in the copy of the innermost kept ancestor (or in the kept root itself when nothing is copied). NOT decided: the flattening semantics itself."
     ),
     explanation="Clauses C04-a..c of DESIGN.md §3 on MIR facts of the current tree. NOT decided: cross product, `&` substitution, ordering of emitted rules.",
     assumptions=TRUSTED + ["evaluation errors abort the compilation (Err exits need no restore)"],
